@@ -28,7 +28,7 @@ Definition accumulate_repeat (Tm : Matc) (k : nat) : list Matc := accum_from Tm 
 Definition msum (l : list Matc) : Matc := fold_left (madd Op n) l (mzero Op n n).
 (* S[~invertible] = eye + sum(accumulate(repeat(T, G - 1), matmul)) *)
 Definition geom_explicit (Tm : Matc) (G : nat) : Matc :=
-  madd Op n (mid Op n) (msum (accumulate_repeat Tm (G - 1))).
+  madd Op n (mid Op n) (msum (accumulate_repeat Tm (Nat.pred G))).
 (* residual of S[invertible] = solve(eye - T, eye - matrix_power(T, G)) *)
 Definition solve_residual (Tm S : Matc) (G : nat) : Matc :=
   msub (mmul Op n (msub (mid Op n) Tm) S) (msub (mid Op n) (mpow Tm G)).
